@@ -67,7 +67,7 @@ type c30In struct {
 func init() {
 	run.Register(&run.Check{
 		ID: "C30", Title: "Rendered SVG is well-formed and user text cannot inject markup",
-		LevelText: "Exploration: the complete matrix of 21 user-string field classes × 18 payload kinds (XML metacharacters, quote break-outs, CDATA/comment terminators, entity forms, control characters, non-characters, invalid UTF-8) with one hostile field per diagram, plus mixed diagrams with several hostile fields, each compiled (dagre/ELK) and rendered under a random option set (18 themes, dark theme, sketch, pad, scale, center, appendix, no-xml-tag); every output is checked rune-by-rune against the XML 1.0 Char production, tokenised by a strict XML parser (single root, unique attributes) and scanned for sentinel-named elements/attributes/comments/PIs.",
+		LevelText: "Exploration: the complete matrix of 21 user-string field classes × 18 payload kinds (XML metacharacters, quote break-outs, CDATA/comment terminators, entity forms, control characters, non-characters, invalid UTF-8) with one hostile field per diagram, plus mixed diagrams with several hostile fields, each compiled (dagre/ELK) and rendered under a random option set (20 themes, dark theme, sketch, pad, scale, center, appendix, no-xml-tag); every output is checked rune-by-rune against the XML 1.0 Char production, tokenised by a strict XML parser (single root, unique attributes) and scanned for sentinel-named elements/attributes/comments/PIs.",
 		Technique: "runtime monitoring: independent strict XML tokenisation + sentinel scan of real d2svg.Render / appendix.Append output on generated hostile diagrams",
 		DesignRef: "§4 C30",
 		Rule:      "cases: (skeleton seed, hostile field→payload map, render options); distinct by sha256 of the case; non-trivial when the diagram compiled and rendered and at least one hostile sentinel reached the SVG bytes",
